@@ -280,6 +280,11 @@ func (pathTargets *pathSubqueryMetadata) extractKeys(node interface{}, path []Pa
 	}
 
 	if len(path) == 0 {
+		if node == nil {
+			// The object the sub-plan hangs off is null (a nil pointer, or a nil
+			// entry in a list): there is nothing to fetch for it and it stays null.
+			return nil
+		}
 		obj, ok := node.(map[string]interface{})
 		if !ok {
 			return fmt.Errorf("not an object: %v", obj)
